@@ -78,7 +78,7 @@ PROPS = {
     "C17": dict(suites={"meta": dict(fields=["outcome", "driver-exception"],
                                      oracles=["get_iff_registered", "own_vtable", "same_address", "bad_cast_only", "iter_borrow_discipline",
                                               "iter_registered_present_in_first_registration_order", "iter_own_vtable"])}),
-    "C18": dict(suites={"plan": dict(fields=["calls", "err", "driver-exception"], oracles=["errors_exact", "status:setup-panic", "status:run-panic"],
+    "C18": dict(suites={"plan": dict(fields=["calls", "err", "errs", "driver-exception"], oracles=["errors_exact", "status:setup-panic", "status:run-panic"],
                                      gens=["malformed"])}),
     "C19": dict(nopar=True, suites={"plan": dict(meta=True, fields=LAYOUT + ["tl", "tlorder", "maxthr"], oracles=["meta_same_plan"])}),
     "C20": dict(suites={"plan": dict(fields=["print", "driver-exception"], oracles=["print_total", "print_matches"])}),
